@@ -77,6 +77,16 @@ func (k msgServer) RemoveRateLimit(goCtx context.Context, msg *types.MsgRemoveRa
 	}
 
 	k.Keeper.RemoveRateLimit(ctx, msg.Denom, msg.ChannelOrClientId)
+
+	// forget the packets charged against the removed rate limit, so that a later rate limit on
+	// the same path is not decremented by their refunds
+	if err := k.RemoveAllChannelPendingSendPackets(ctx, msg.ChannelOrClientId, msg.Denom); err != nil {
+		return nil, err
+	}
+	if err := k.RemoveAllChannelPendingReceivePackets(ctx, msg.ChannelOrClientId, msg.Denom); err != nil {
+		return nil, err
+	}
+
 	return &types.MsgRemoveRateLimitResponse{}, nil
 }
 
